@@ -229,6 +229,8 @@ pub fn content_small() -> BoxedStrategy<Option<Content>> {
         3 => proptest::collection::vec(any::<u8>(), 1..24).prop_map(|b| Some(Content::Bytes(b))),
         // the same bytes again and again: several frames then share one content
         2 => Just(Some(Content::Bytes(b"shared".to_vec()))),
+        // zero bytes: content all the same (through the Store API; an empty HTTP body means none)
+        1 => Just(Some(Content::Bytes(Vec::new()))),
         1 => any::<u8>().prop_map(|seed| Some(Content::Pattern { len: 9000, seed })),
     ]
     .boxed()
